@@ -241,7 +241,7 @@ def execute(cfg: kaisa.Config, hist: list[dict[str, Any]], seed: int,
                         xb, yb = kaisa.make_batch(cfg, seed, rank, rr.it, mb,
                                                   dtype)
                         o = rr.model(xb)
-                        kaisa.loss_fn(o, yb, cfg.batch,
+                        kaisa.loss_fn(o, yb, o.shape[0] // cfg.union,
                                       cfg.grad_scaler).backward()
                     with torch.no_grad():
                         for p in rr.model.parameters():
@@ -271,7 +271,7 @@ def execute(cfg: kaisa.Config, hist: list[dict[str, Any]], seed: int,
                     cap.pid += 1
                     xb, yb = kaisa.make_batch(cfg, seed, rank, rr.it, 0, dtype)
                     before = state_digest(rr)
-                    kaisa.loss_fn(rr.model(xb), yb, cfg.batch, None).backward()
+                    kaisa.loss_fn(rr.model(xb), yb, xb.shape[0] // cfg.union, None).backward()
                     out['evalframe_ok'] = state_digest(rr) == before
                     if cfg.W > 1:
                         with simdist.owner('driver'):
